@@ -165,6 +165,8 @@ type GenOpts struct {
 	Tx           bool
 	Batch        bool
 	Scans        bool
+	BigTxPct     int // chance (percent) that a transaction is larger than the 64KB log buffer (0 = 8)
+	TxWeight     int // weight of transactions in the op mix (0 = 8)
 }
 
 // GenProgram draws a program.
@@ -197,6 +199,13 @@ func GenProgram(r *core.Rand, ks *KeySpace, tagPrefix string, o GenOpts) []Op {
 	wTx, wBatch, wScan := 0, 0, 0
 	if o.Tx {
 		wTx = 8
+		if o.TxWeight > 0 {
+			wTx = o.TxWeight
+		}
+	}
+	bigTx := 8
+	if o.BigTxPct > 0 {
+		bigTx = o.BigTxPct
 	}
 	if o.Batch {
 		wBatch = 4
@@ -218,7 +227,7 @@ func GenProgram(r *core.Rand, ks *KeySpace, tagPrefix string, o GenOpts) []Op {
 				max = 40
 			}
 			body := sub(max, true)
-			if r.Chance(8) {
+			if r.Chance(bigTx) {
 				// a commit larger than the 64KB log buffer: a few large values or many small ones
 				if r.Bool() {
 					for i, m := 0, r.Range(2, 4); i < m; i++ {
